@@ -677,7 +677,9 @@ def i_MOVSXD(i, fmap):
     fmap[rip] = fmap[rip] + i.length
     op1 = i.operands[0]
     op2 = fmap(i.operands[1])
-    fmap[op1] = op2.signextend(op1.size)
+    x = op2.signextend(op1.size)
+    op1, x = _r32_zx64(op1, x)
+    fmap[op1] = x
 
 
 def i_MOVZX(i, fmap):
